@@ -111,7 +111,9 @@ class Replayer:
 
     def bad(self, e, what, detail):
         self.nbad += 1
-        self.rep.violation('{}:{}:{}'.format(self.tag, e['f'], what),
+        # a wrong class name / cache identity is a defect of Dimension.from_powers, not of the function at hand
+        where = 'dimension' if what in ('wrong-name', 'class-identity') else e['f']
+        self.rep.violation('{}:{}:{}'.format(self.tag, where, what),
                            '{} {}: {}'.format(e['f'], what, detail),
                            dict(transition=e, detail=detail))
 
